@@ -6,6 +6,31 @@ import os
 ROOT = os.path.dirname(os.path.dirname(os.path.abspath(__file__)))
 
 CLAIMED = {
+    "C02": dict(
+        category="model_checking",
+        technique="generative TLA+ model of the Slice grammar (construction actions with the language rules as guards, "
+                  "token printer, layout function) run in TLC's simulator; every finished program is rendered, compiled "
+                  "and its projected AST compared structurally with the program the model built",
+        text="MC_Syntax builds well-formed multi-file programs by actions that mirror grammar productions and carries the "
+             "parser's own state (ScopeBalanced, PrevEnumResetAtEnumEnd are checked in every state); SliceSyntax prints "
+             "tokens with element paths and places them under pseudo-random separators (blanks, tabs, CRLF, comments of "
+             "every kind, a wide Unicode blank, touching tokens), optional commas, literal spellings in four bases at "
+             "range boundaries, escaped string arguments, keyword identifiers. The harness concatenates, compiles and "
+             "compares files, modules, attributes and arguments, definitions, members, modifiers, tags, optionality, "
+             "enumerator values, full type trees (aliases replaced by their final target with accumulated attributes).",
+        note="Sampled (240 programs quick, 12 000 thorough), not bounded-exhaustive. Doc comments are C16's business.",
+        design_ref="5 (C02), 4 (SliceSyntax), Appendix A"),
+    "C20": dict(
+        category="model_checking",
+        technique="reference pre-order traversal defined in TLA+ over the generative program model; a recording "
+                  "implementation of the public Visitor trait is compared callback by callback with it for every "
+                  "simulate-mode program",
+        text="Traversal(file) in MC_Syntax is the property read operationally (file, module, definitions in order, "
+             "containers before contents, each member's type right after it followed by nested element / key / value / "
+             "success / failure types, through aliases); for every generated multi-file program the recorded callback "
+             "sequence of every file (callback kind + scoped identifier / type string) must equal it exactly.",
+        note="Sampled programs. Bases and underlying types are not presented by the visitor and not demanded by the statement.",
+        design_ref="5 (C20), 4 (Visitor)"),
     "C14": dict(
         category="model_checking",
         technique="TLA+ emission model (TLC invariants on every diagnostic list up to a bound) + every list built "
